@@ -25,6 +25,8 @@ pub enum Ret {
     /// the dispatch was rejected; `intact` = the very same job came back unchanged
     Rejected { intact: bool },
     Panicked(String),
+    /// harness: the schedule asks to dispatch a job object the harness does not hold (only after a drift)
+    Unavailable,
 }
 
 #[derive(Clone, Debug, PartialEq)]
@@ -248,7 +250,10 @@ impl Session {
         let grant;
         {
             let mut g = self.lock();
-            g.log.push(Ev::Hook { role, site, b });
+            // a spinning retry loop must not eat the memory: beyond a cap only the other sites are logged
+            if g.log.len() < 1_500_000 || !(site == "pool.d.try" || site == "pool.d.load") {
+                g.log.push(Ev::Hook { role, site, b });
+            }
             // a worker unwinding out of a panicking job only announces the end of the job
             let auto = site == "pool.w.done" && b == 1;
             if !g.steer || auto {
@@ -479,16 +484,17 @@ impl Session {
 
 pub fn render(ev: &Ev, roles: &[String]) -> String {
     let rn = |i: usize| roles.get(i).cloned().unwrap_or_else(|| format!("r{i}"));
+    let jn = |j: usize| if j == usize::MAX { "all".to_string() } else { format!("j{}", j + 1) };
     match ev {
         Ev::Hook { role, site, b } => format!("{}@{}({})", rn(*role), site, b),
-        Ev::Call { d, job } => format!("{}:call(j{})", rn(*d), job + 1),
-        Ev::Ret { d, job, ret } => format!("{}:ret(j{},{:?})", rn(*d), job + 1, ret),
+        Ev::Call { d, job } => format!("{}:call({})", rn(*d), jn(*job)),
+        Ev::Ret { d, job, ret } => format!("{}:ret({},{:?})", rn(*d), jn(*job), ret),
         Ev::JobStart { job, role, gauge } => {
-            format!("start(j{},{},gauge={})", job + 1, role.map(rn).unwrap_or_else(|| "?".into()), gauge)
+            format!("start({},{},gauge={})", jn(*job), role.map(rn).unwrap_or_else(|| "?".into()), gauge)
         }
-        Ev::JobEnd { job, panicked } => format!("end(j{}{})", job + 1, if *panicked { ",panic" } else { "" }),
-        Ev::JobDropped { job, ran } => format!("dropped(j{},ran={})", job + 1, ran),
+        Ev::JobEnd { job, panicked } => format!("end({}{})", jn(*job), if *panicked { ",panic" } else { "" }),
+        Ev::JobDropped { job, ran } => format!("dropped({},ran={})", jn(*job), ran),
         Ev::ThreadExit { role } => format!("{}:thread-exit", rn(*role)),
-        Ev::Result { d, job, out } => format!("{}:result(j{},{:?})", rn(*d), job + 1, out),
+        Ev::Result { d, job, out } => format!("{}:result({},{:?})", rn(*d), jn(*job), out),
     }
 }
